@@ -296,12 +296,39 @@ def _one_sign(c, side):
             p = _padd(poly_of(ch[0], side), poly_of(ch[1], side), -1)
         except z3.Z3Exception:
             continue
+        const = Fraction(0)
+        if len(p) == 2 and () in p:
+            const = p[()]
+            p = {kk: vv for kk, vv in p.items() if kk != ()}
         if len(p) != 1:
             continue
         (key, coef), = p.items()
         if len(key) != 1:
             continue
         rel = {z3.Z3_OP_LE: "<=", z3.Z3_OP_LT: "<", z3.Z3_OP_GE: ">=", z3.Z3_OP_GT: ">", z3.Z3_OP_EQ: "=="}[k]
+        if const != 0:
+            # numeric bound  coef*v + const  rel  0
+            if neg:
+                rel = {"<=": ">", "<": ">=", ">=": "<", ">": "<=", "==": None}[rel]
+            if rel is None:
+                continue
+            if coef < 0:
+                rel = {"<=": ">=", "<": ">", ">=": "<=", ">": "<", "==": "=="}[rel]
+            bound = -const / coef
+            cur = sg.setdefault(key[0], set())
+            if rel in (">=", ">", "=="):
+                cur.add(("lb", bound))
+                if bound >= 0:
+                    cur.add("nonneg")
+                if bound > 0 or (bound == 0 and rel == ">"):
+                    cur.add("pos")
+            if rel in ("<=", "<", "=="):
+                cur.add(("ub", bound))
+                if bound <= 0:
+                    cur.add("nonpos")
+                if bound < 0 or (bound == 0 and rel == "<"):
+                    cur.add("neg")
+            continue
         if neg:
             rel = {"<=": ">", "<": ">=", ">=": "<", ">": "<=", "==": None}[rel]
         if rel is None:
@@ -363,7 +390,33 @@ def relaxation_unsat(constraints, timeout_ms=3000):
             s.add(v >= 0)
             if len(set(key)) == 1 and len(key) == 2:
                 s.add(z3.Implies(v <= 0, z3.Real(key[0]) == 0))
+                fs_ = sg.get(key[0]) or ()
+                lbs = [f[1] for f in fs_ if isinstance(f, tuple) and f[0] == "lb"] + ([Fraction(0)] if "nonneg" in fs_ else [])
+                ubs = [f[1] for f in fs_ if isinstance(f, tuple) and f[0] == "ub"] + ([Fraction(0)] if "nonpos" in fs_ else [])
+                if lbs and ubs:
+                    lo, hi = max(lbs), min(ubs)
+                    s.add(v <= z3.RealVal(str(max(lo * lo, hi * hi))))
+                    # secant over-estimator of the square on [lo, hi]
+                    s.add(v <= z3.RealVal(str(lo + hi)) * z3.Real(key[0]) - z3.RealVal(str(lo * hi)))
             continue
+        if len(key) == 2:
+            # McCormick envelope from numeric bounds lo <= a <= hi, lo' <= b <= hi' (squares included)
+            def rng(name):
+                fs_ = sg.get(name) or ()
+                lbs = [f[1] for f in fs_ if isinstance(f, tuple) and f[0] == "lb"] + ([Fraction(0)] if "nonneg" in fs_ else [])
+                ubs = [f[1] for f in fs_ if isinstance(f, tuple) and f[0] == "ub"] + ([Fraction(0)] if "nonpos" in fs_ else [])
+                return (max(lbs) if lbs else None, min(ubs) if ubs else None)
+            (la, ha), (lb_, hb) = rng(key[0]), rng(key[1])
+            A_, B_ = z3.Real(key[0]), z3.Real(key[1])
+            rv = lambda q: z3.RealVal(str(q))
+            if la is not None and lb_ is not None:
+                s.add(v >= rv(la) * B_ + rv(lb_) * A_ - rv(la * lb_))
+            if ha is not None and hb is not None:
+                s.add(v >= rv(ha) * B_ + rv(hb) * A_ - rv(ha * hb))
+            if la is not None and hb is not None:
+                s.add(v <= rv(la) * B_ + rv(hb) * A_ - rv(la * hb))
+            if ha is not None and lb_ is not None:
+                s.add(v <= rv(ha) * B_ + rv(lb_) * A_ - rv(ha * lb_))
         if len(key) == 2 and key[0] != key[1]:
             # a strictly signed factor transfers the other factor's sign to the product (and its zero-ness)
             for a, b in ((key[0], key[1]), (key[1], key[0])):
